@@ -1,3 +1,4 @@
+import MiniconfVerif.Lemmas.WalkAll
 import MiniconfVerif.Lemmas.Enum
 import MiniconfVerif.Lemmas.GenTie
 import MiniconfVerif.Lemmas.PackedPath
@@ -133,5 +134,22 @@ open MiniconfVerif.Gen MiniconfVerif.Gen.Core MiniconfVerif.GenTie in
 theorem source_leaf_and_max_length (m : Meta) (sep : String) :
     Metadata.leaf = metaToGen Schema.leaf.meta ∧
     (metaToGen m).max_length_sep sep = m.maxLength + m.maxDepth * sep.utf8ByteSize := ⟨rfl, rfl⟩
+
+
+/-- **A user-supplied walker sees every internal node with exactly its declared children.**  For an arbitrary `Walk`
+implementation (`leafW`, `internalW`), `traverse_all` (`Schema.walkAll`: the function the correspondence run executes
+against the harness's recording walker on every corpus type) is the evaluation of the walker on what the *free*
+(recording) walker is shown, and that is the declared structure of the type: each struct / tuple / enum / `Result` /
+… node once, bottom-up, with its lookup and the walks of its children in declaration order, each array once with
+`Homogeneous(n)` and the walk of its element type.  `Metadata` is the instance with `Metadata`'s own `leaf`/`internal`
+(tied to the translated walk.rs by `source_internal_is_model`). -/
+theorem walker_sees_every_node {W : Type} (leafW : W) (internalW : List W → Lookup → W) (s : Schema) :
+    s.walkAll leafW internalW = s.shown.eval leafW internalW ∧
+    s.walkAll Shown.leaf Shown.internal = s.shown ∧
+    (s.WF → s.meta = s.walkAll Meta.leaf Meta.internalW) :=
+  ⟨walkAll_factors leafW internalW s, walkAll_free s, meta_is_walkAll s⟩
+
+example : (Schema.node (.named ["a", "b"]) [.leaf, .array 3 .leaf]).shown =
+    .internal [.leaf, .internal [.leaf] (.homog 3)] (.named ["a", "b"]) := rfl
 
 end MiniconfVerif.C06
